@@ -89,6 +89,17 @@ theorem aset_roundtrip (f : ASetFile) (h : WF f) :
   refine ⟨a, ha, ?_⟩
   rw [fromArchive_layout f a h.1 hl, sets_map_setVal f.sets h.2]
 
+/-- Consequently building the archive is injective on well-formed files: two different animation
+set files never build the same archive. -/
+theorem aset_build_injective (f g : ASetFile) (hf : WF f) (hg : WF g) (h : build f = build g) :
+    f = g := by
+  obtain ⟨a, ha, ra⟩ := aset_roundtrip f hf
+  obtain ⟨b, hb, rb⟩ := aset_roundtrip g hg
+  have e : a = b := by have := ha.symm.trans (h.trans hb); injection this
+  subst e
+  have := ra.symm.trans rb
+  injection this
+
 /-- **Layering**: `from_archive` depends only on the archive's content — any archive with the same
 content as the one `serialize` built (same size, raw bytes outside string cells, string per cell,
 label bucket per address) is read to the same value. -/
